@@ -815,6 +815,22 @@ CHECKS["C04"]["text"] = ("All representation theorems (dtype/shape, numpy values
     "evaluation of the model on real numpy()/tobytes()/tofile()/nbytes observations and direct calls of the translated "
     "functions (strided, 2-D, Fortran-order inputs; every dims case; append-mode destinations; torch views incl. lazy conj).")
 
+CHECKS["C11"].update(
+    text="Per-run fail-closed translation of _linked_list.py (_LinkBox, the DoublyLinkedSet mutators and both generators) into a "
+         "Gallina box heap (prev/next/value/owning_list, root, length, id->box dict), proved to refine the sequence+tombstone "
+         "model (C11_heap_edit_refines, C11_heap_iter_refines, C11_heap_observers_refine), so every model theorem transfers to "
+         "the pointer code; 41 closed theorems, none partial: list refinement, termination, schedule law (untouched nodes once "
+         "in order / pre-order), position laws, cursor independence, recursive traversal with the `recursive` predicate "
+         "(asked exactly once per yielded node) and restart, enter/exit callbacks properly nested and balanced for every "
+         "history of next() calls interleaved with edits. Hand model and translated code are both evaluated in Coq on every "
+         "schedule (DoublyLinkedSet/Graph/Function/all_nodes/reversed-of variants, exhaustive schedule trees) against the "
+         "implementation; an exact plain-list oracle is the violation search.",
+    note=TRUST + "Graph.sort's order enters as a permutation (C12); CPython generator semantics are the model's cursor rules; "
+         "__getitem__/__contains__/__len__'s assertion are a thin hand-written layer over the translated iterators; callback "
+         "traces are compared up to repetition of the same call (the property needs nesting and balance, not the count).",
+    technique="Per-run ast->Gallina translation of the linked list into a box heap + refinement proofs to the cursor/tombstone "
+              "model; per-event vm_compute correspondence + exhaustive schedule trees")
+
 
 def main():
     props = [json.loads(l) for l in open(os.path.join(VERIF, "properties.jsonl"))]
